@@ -172,42 +172,59 @@ Proof. intros tag attrs kids H1 H2 H3. unfold cwfb in *. cbn [wfbg forallb]. unf
 Lemma tooltip_el_ok : forall c s, cwfb (tooltip_el c s) = true.
 Proof. intros. unfold tooltip_el. apply cwfb_el; [reflexivity|apply common_attrs_ok|reflexivity]. Qed.
 
-Lemma label_el_ok : forall l, cwfb (label_el l) = true.
+Lemma label_el_ok : forall l, forallb cwfb (label_markup l) = true -> cwfb (label_el l) = true.
 Proof.
-  intros l. unfold label_el.
+  intros l Hm. unfold label_el.
   assert (E : cwfb (El (match l_link l with Some _ => s_a | None => s_span end) []
-                      (common_attrs [s_label] (l_c l) ++ opt_attr s_href (l_link l) ++ opt_attr s_target (l_target l)) [Txt (l_text l)]) = true).
-  { apply cwfb_el; [destruct (l_link l); reflexivity| |reflexivity].
-    rewrite !forallb_app, common_attrs_ok, !opt_attr_ok by reflexivity. reflexivity. }
+                      (common_attrs [s_label] (l_c l) ++ opt_attr s_href (l_link l) ++ opt_attr s_target (l_target l))
+                      (match l_markup l with Some kids => kids | None => [Txt (l_text l)] end)) = true).
+  { apply cwfb_el; [destruct (l_link l); reflexivity| |].
+    - rewrite !forallb_app, common_attrs_ok, !opt_attr_ok by reflexivity. reflexivity.
+    - unfold label_markup in Hm. destruct (l_markup l); [exact Hm|reflexivity]. }
   destruct (l_tip l) as [[tc content]|]; [|exact E].
   apply cwfb_el; [reflexivity|reflexivity|]. cbn [forallb]. now rewrite E, tooltip_el_ok.
 Qed.
 
-Lemma tab_nodes_ok : forall f l i, (forall i t, cwfb (f i t) = true) -> forallb cwfb (tab_nodes f i l) = true.
-Proof. induction l as [|t r IH]; intros i H; [reflexivity|]. cbn [tab_nodes forallb]. now rewrite H, IH. Qed.
-
-Theorem ctl_node_ok : forall c, cwfb (ctl_node c) = true.
+Lemma tab_nodes_ok : forall f l i, (forall i t, In t l -> cwfb (f i t) = true) -> forallb cwfb (tab_nodes f i l) = true.
 Proof.
-  destruct c as [l|cm content|cm name labels|subs l|cm isleft selected root bid cid tabs]; cbn [ctl_node].
-  - apply label_el_ok.
+  induction l as [|t r IH]; intros i H; [reflexivity|]. cbn [tab_nodes forallb].
+  rewrite H by (now left). rewrite IH; [reflexivity|]. intros j u Hu. apply H. now right.
+Qed.
+
+Lemma forallb_flat_map_in : forall {A} (f : A -> list hnode) (l : list A) x,
+  forallb cwfb (flat_map f l) = true -> In x l -> forallb cwfb (f x) = true.
+Proof.
+  intros A f l x H Hx. apply forallb_forall. intros y Hy. rewrite forallb_forall in H. apply H. apply in_flat_map. eauto.
+Qed.
+
+Theorem ctl_node_ok : forall c, forallb cwfb (ctl_markup c) = true -> cwfb (ctl_node c) = true.
+Proof.
+  destruct c as [l|cm content|cm mk|cm name labels|subs l|cm isleft selected root bid cid tabs]; cbn [ctl_node ctl_markup]; intros Hm.
+  - now apply label_el_ok.
   - apply tooltip_el_ok.
-  - apply cwfb_el; [reflexivity|apply common_attrs_ok|]. rewrite forallb_app.
+  - apply cwfb_el; [reflexivity|apply common_attrs_ok|exact Hm].
+  - rewrite forallb_app in Hm. apply andb_prop in Hm. destruct Hm as [Hn Hl].
+    apply cwfb_el; [reflexivity|apply common_attrs_ok|]. rewrite forallb_app.
     assert (E : forallb cwfb (map label_el labels) = true).
-    { apply forallb_forall. intros x Hx. apply in_map_iff in Hx. destruct Hx as (y & <- & _). apply label_el_ok. }
+    { apply forallb_forall. intros x Hx. apply in_map_iff in Hx. destruct Hx as (y & <- & Hy). apply label_el_ok.
+      exact (forallb_flat_map_in label_markup labels y Hl Hy). }
     rewrite E, andb_true_r. destruct name; [cbn [forallb]; now rewrite label_el_ok|reflexivity].
-  - apply cwfb_el; [reflexivity|reflexivity|]. cbn [forallb]. rewrite label_el_ok. cbn [andb]. rewrite ?andb_true_r.
+  - apply cwfb_el; [reflexivity|reflexivity|]. cbn [forallb]. rewrite label_el_ok by exact Hm. cbn [andb]. rewrite ?andb_true_r.
     apply cwfb_el; [reflexivity|reflexivity|].
     apply forallb_forall. intros x Hx. apply in_map_iff in Hx. destruct Hx as (y & <- & _).
     apply cwfb_el; [reflexivity|apply common_attrs_ok|reflexivity].
   - set (button := fun (i : Z) (t : tab) => El s_button [] _ _).
     set (content := fun (i : Z) (t : tab) => El s_div [] _ _).
-    assert (Hb : forall i t, cwfb (button i t) = true).
-    { intros i t. subst button. cbv beta. apply cwfb_el; [reflexivity| |cbn [forallb]; now rewrite label_el_ok].
+    assert (Ht : forall t, In t tabs -> forallb cwfb (label_markup (t_label t)) = true /\
+                forallb cwfb (match t_content t with TCLabel l => label_markup l | TCValue _ _ => [] end) = true).
+    { intros t Hin. assert (H := forallb_flat_map_in _ tabs t Hm Hin). cbv beta in H. rewrite forallb_app in H. now apply andb_prop in H. }
+    assert (Hb : forall i t, In t tabs -> cwfb (button i t) = true).
+    { intros i t Hin. subst button. cbv beta. apply cwfb_el; [reflexivity| |cbn [forallb]; rewrite label_el_ok; [reflexivity|apply (Ht t Hin)]].
       rewrite forallb_app. cbn. reflexivity. }
-    assert (Hc : forall i t, cwfb (content i t) = true).
-    { intros i t. subst content. cbv beta. apply cwfb_el; [reflexivity| |].
+    assert (Hc : forall i t, In t tabs -> cwfb (content i t) = true).
+    { intros i t Hin. subst content. cbv beta. apply cwfb_el; [reflexivity| |].
       - rewrite forallb_app, opt_attr_ok by reflexivity. reflexivity.
-      - cbn [forallb]. destruct (t_content t) as [l|o v]; [now rewrite label_el_ok|].
+      - cbn [forallb]. destruct (Ht t Hin) as [_ H2]. destruct (t_content t) as [l|o v]; [now rewrite label_el_ok|].
         unfold tree_view. now rewrite (wfb_cwfb _ (tv_wfb o v _ _ _ _ _ _ _ _)). }
     assert (Hbg : forall attrs, forallb attr_ok attrs = true -> cwfb (El s_div [] attrs (tab_nodes button 0%Z tabs)) = true).
     { intros attrs Ha. apply cwfb_el; [reflexivity|exact Ha|now apply tab_nodes_ok]. }
@@ -229,15 +246,22 @@ Qed.
 Lemma CT_not_raw : forallb (fun t => negb (is_raw_tag t)) CT = true.
 Proof. reflexivity. Qed.
 
-Theorem ctl_well_formed : forall c, parse_html (render (ctl_node c)) = Some (normalize [ctl_node c]).
-Proof. intros c. apply render_parse. exact (wfbg_names_ok CT vocabulary_opts CA CT_not_raw _ (ctl_node_ok c)). Qed.
+(* markup texts (Html objects given by the application) are part of the page's own markup: they must themselves be
+   well-named trees over the vocabulary; plain (str) texts need nothing *)
+Definition markup_ok (c : ctl) : Prop := forallb cwfb (ctl_markup c) = true.
 
-Theorem ctl_no_injection : forall c,
+Theorem ctl_well_formed : forall c, markup_ok c -> parse_html (render (ctl_node c)) = Some (normalize [ctl_node c]).
+Proof. intros c Hm. apply render_parse. exact (wfbg_names_ok CT vocabulary_opts CA CT_not_raw _ (ctl_node_ok c Hm)). Qed.
+
+Lemma markup_ok_plain : forall l, l_markup l = None -> markup_ok (CLabel l).
+Proof. intros l H. unfold markup_ok, ctl_markup, label_markup. now rewrite H. Qed.
+
+Theorem ctl_no_injection : forall c, markup_ok c ->
   exists d, parse_html (render (ctl_node c)) = Some d /\
             forall n, In n d -> incl (tags_of n) CT /\ incl (optnames_of n) vocabulary_opts /\ incl (attrnames_of n) CA.
 Proof.
-  intros c. exists (normalize [ctl_node c]). split; [apply ctl_well_formed|].
-  intros n Hn. destruct (wfbg_vocab CT vocabulary_opts CA _ (ctl_node_ok c)) as (H1 & H2 & H3).
+  intros c Hm. exists (normalize [ctl_node c]). split; [now apply ctl_well_formed|].
+  intros n Hn. destruct (wfbg_vocab CT vocabulary_opts CA _ (ctl_node_ok c Hm)) as (H1 & H2 & H3).
   repeat split; intros x Hx.
   - apply H1. assert (E := collect_normalize (fun tag _ _ => [tag]) [ctl_node c]).
     cbn [flat_map] in E. rewrite app_nil_r in E. unfold tags_of. rewrite <- E. apply in_flat_map. eauto.
@@ -246,3 +270,8 @@ Proof.
   - apply H3. assert (E := collect_normalize (fun _ _ attrs => map fst attrs) [ctl_node c]).
     cbn [flat_map] in E. rewrite app_nil_r in E. unfold attrnames_of. rewrite <- E. apply in_flat_map. eauto.
 Qed.
+
+Example markup_ok_example :
+  markup_ok (CLabel (mkLabel (mkCommon None [] []) None None [] None
+                             (Some [El s_span [] (class_attr [s_label]) [Txt s_k_i_closed]; Txt s_k_i]))).
+Proof. reflexivity. Qed.
